@@ -45,6 +45,7 @@ from Bio.SeqRecord import SeqRecord
 from antismash.common.secmet import Record
 from antismash.common.secmet.features import (
     AntismashDomain,
+    CDSFeature,
     CDSMotif,
     Module,
     PFAMDomain,
@@ -629,8 +630,30 @@ def reannotation_spec(spec: dict) -> dict:
     return other
 
 
+ONE_CODON_GENE = "VF_onecodon"
+
+
+def _add_one_codon_gene(record: Record, spec: dict) -> None:
+    """ every fourth record gets a gene of a single codon, as a gene finder leaves at the very edge of a contig
+        (`CDS 598..>600`): the smallest gene the record accepts. Placed by the sequence seed, without a draw. """
+    if spec["seq_seed"] % 4 or spec["L"] < 30:
+        return
+    try:
+        record.get_cds_by_name(ONE_CODON_GENE)
+        return      # (a record read from an earlier output has it already)
+    except KeyError:
+        pass
+    start = spec["L"] - 3 if not spec["circular"] else (spec["seq_seed"] // 4) % (spec["L"] - 3)
+    location = FeatureLocation(start, start + 3, 1)
+    amino = str(location.extract(record.seq).translate(table=11))
+    if amino in ("*", "X", ""):
+        return
+    record.add_cds_feature(CDSFeature(location, locus_tag=ONE_CODON_GENE, translation=amino))
+
+
 def annotate(record: Record, spec: dict) -> Record:
     """ adds the annotations of the spec to a record that holds the spec's genes and nothing of antiSMASH's """
+    _add_one_codon_gene(record, spec)
     by_name = {}
     for gene in spec["genes"]:
         by_name[gene["name"]] = record.get_cds_by_name(gene["name"])
@@ -772,6 +795,7 @@ def facts(record) -> dict:
         "circular": record.is_circular(),
         "genes": len(record.get_cds_features()),
         "bridging_genes": sum(1 for c in record.get_cds_features() if c.location.crosses_origin()),
+        "one_codon_genes": sum(1 for c in record.get_cds_features() if len(c.location) == 3),
         "codon_start_genes": sum(1 for c in record.get_cds_features() if c._original_codon_start not in (None, 0)),
         "multi_exon_genes": sum(1 for c in record.get_cds_features() if len(c.location.parts) > 1),
         "protoclusters": len(protos),
